@@ -147,8 +147,30 @@ Definition path_base (s : string) : string :=
 Definition path_join2 (a b : string) : string :=
   if negb (a =? "") then clean (a +++ "/" +++ b)
   else if negb (b =? "") then clean b else "".
+(* filepath.Rel(base, p) succeeds and its result neither is ".." nor starts with
+   "../" (common.go since fix 566455e).  Rel cleans both paths; equal => ".";
+   they must agree on being rooted; the common leading components are dropped;
+   a base component left over means an error (it is "..") or a result that
+   starts with ".."; otherwise the result is what is left of the target. *)
+Definition rel_comps (cleaned : string) : list string :=
+  if cleaned =? "." then [] else if cleaned =? "/" then [""] else split_on ch_slash cleaned.
+Fixpoint strip_prefix (a b : list string) : option (list string) :=
+  match a, b with
+  | [], _ => Some b
+  | x :: a', y :: b' => if x =? y then strip_prefix a' b' else None
+  | _ :: _, [] => None
+  end.
+Definition is_within (base p : string) : bool :=
+  let b := clean base in let t := clean p in
+  if b =? t then true
+  else if negb (Bool.eqb (starts_with_slash b) (starts_with_slash t)) then false
+  else match strip_prefix (rel_comps b) (rel_comps t) with
+       | Some (c :: _) => negb (c =? "..")
+       | Some [] => true
+       | None => false
+       end.
 Definition sanitize_archive_path (d t : string) : string :=   (* error ignored by its caller: "" *)
-  let v := path_join2 d t in if has_prefix (clean d) v then v else "".
+  let v := path_join2 d t in if is_within d v then v else "".
 
 (* ---- sort.Strings ------------------------------------------------------------ *)
 Fixpoint sinsert (x : string) (l : list string) : list string :=
